@@ -18,6 +18,30 @@ impl Stats {
     }
 }
 
+/// stable 32-bit id of a format-string literal (FNV-1a), used to keep error sites apart
+pub fn fmt_id(lit: &str) -> u64 {
+    let mut h: u32 = 0x811c9dc5;
+    for b in lit.bytes() {
+        h ^= b as u32;
+        h = h.wrapping_mul(0x01000193);
+    }
+    h as u64
+}
+
+/// split the arguments of bail!/anyhow!/format! into (format literal, other args)
+fn fmt_args(m: &syn::Macro, desc: &str) -> Option<(String, Vec<Expr>)> {
+    let parser = syn::punctuated::Punctuated::<Expr, syn::Token![,]>::parse_terminated;
+    let args = match syn::parse::Parser::parse2(parser, m.tokens.clone()) {
+        Ok(a) => a,
+        Err(_) => die("unsupported", &format!("cannot parse arguments of `{}!` in {}", path_last(&m.path), desc)),
+    };
+    let mut it = args.into_iter();
+    match it.next() {
+        Some(Expr::Lit(syn::ExprLit { lit: syn::Lit::Str(ls), .. })) => Some((ls.value(), it.collect())),
+        _ => None,
+    }
+}
+
 fn ident(s: &str) -> syn::Ident {
     syn::Ident::new(s, Span::call_site())
 }
@@ -47,6 +71,12 @@ pub fn strip_item_attrs(item: &mut syn::Item, stats: &mut Stats) {
             for f in s.fields.iter_mut() {
                 f.attrs.clear();
                 f.vis = parse_quote!(pub);
+                // N11: std HashMap<String, usize> -> VMap (specified finite map)
+                let t = f.ty.to_token_stream().to_string().replace(' ', "");
+                if t == "HashMap<String,usize>" || t == "std::collections::HashMap<String,usize>" {
+                    f.ty = parse_quote!(VMap);
+                    stats.bump("N11.hashmap_field");
+                }
             }
             s.vis = parse_quote!(pub);
             if n > 0 {
@@ -64,6 +94,13 @@ pub fn strip_item_attrs(item: &mut syn::Item, stats: &mut Stats) {
         syn::Item::Const(c) => {
             c.attrs.clear();
             c.vis = parse_quote!(pub);
+            // `&T` in a const item is `&'static T` (lifetime elision rule for consts); Verus wants it spelled out
+            if let syn::Type::Reference(r) = &mut *c.ty {
+                if r.lifetime.is_none() {
+                    r.lifetime = Some(syn::Lifetime::new("'static", Span::call_site()));
+                    stats.bump("N13.const_static_lifetime");
+                }
+            }
         }
         syn::Item::Type(t) => {
             t.attrs.clear();
@@ -194,6 +231,7 @@ struct Norm<'a> {
     deref_idents: Vec<String>,
     keep_async: bool,
     yieldctx: Option<String>,
+    opt_map: bool,
 }
 
 impl<'a> Norm<'a> {
@@ -340,6 +378,148 @@ impl<'a> Norm<'a> {
     }
 }
 
+impl<'a> Norm<'a> {
+    /// N9: anyhow / format / error-conversion idioms (DESIGN.md §2.2)
+    fn n9(&mut self, e: &mut Expr) {
+        // bail!(..) / anyhow!(..) / format!(..) in expression position
+        if let Expr::Macro(em) = e {
+            let name = path_last(&em.mac.path);
+            if name == "bail" || name == "anyhow" || name == "format" {
+                let new: Expr = match fmt_args(&em.mac, self.desc) {
+                    Some((lit, args)) => {
+                        let id = fmt_id(&lit);
+                        let idlit = syn::LitInt::new(&format!("{}u64", id), Span::call_site());
+                        self.stats.bump(&format!("N9.{}_fmt", name));
+                        if name == "format" {
+                            match args.len() {
+                                0 => parse_quote!(v_fmt0(#idlit)),
+                                1 => { let a = &args[0]; parse_quote!(v_fmt1(#idlit, &#a)) }
+                                2 => { let a = &args[0]; let b = &args[1]; parse_quote!(v_fmt2(#idlit, &#a, &#b)) }
+                                _ => die("unsupported", &format!("format! with {} arguments in {}", args.len(), self.desc)),
+                            }
+                        } else if name == "bail" {
+                            parse_quote!(return Err(VErr::Msg(#idlit)))
+                        } else {
+                            parse_quote!(VErr::Msg(#idlit))
+                        }
+                    }
+                    None => {
+                        if name != "bail" {
+                            die("unsupported", &format!("`{}!` without a format literal in {}", name, self.desc));
+                        }
+                        let inner: Expr = syn::parse2(em.mac.tokens.clone()).unwrap_or_else(|_| die("unsupported", &format!("cannot parse bail! argument in {}", self.desc)));
+                        self.stats.bump("N9.bail_value");
+                        parse_quote!(return Err((#inner).into_verr()))
+                    }
+                };
+                *e = new;
+                return;
+            }
+        }
+        // X.ok_or(E)?  ==>  match X { Some(v) => v, None => return Err((E).into_verr()) }
+        if let Expr::Try(t) = e {
+            if let Expr::MethodCall(mc) = &*t.expr {
+                if mc.method == "ok_or" && mc.args.len() == 1 {
+                    let recv = &mc.receiver;
+                    let err = &mc.args[0];
+                    *e = parse_quote!(match #recv { Some(__v) => __v, None => return Err((#err).into_verr()) });
+                    self.stats.bump("N9.ok_or_try");
+                    return;
+                }
+            }
+        }
+        // X.ok_or(E.into())  (no `?`)  ==>  match X { Some(v) => Ok(v), None => Err((E).into_verr()) }
+        if let Expr::MethodCall(mc) = e {
+            if mc.method == "ok_or" && mc.args.len() == 1 {
+                if let Expr::MethodCall(inner) = &mc.args[0] {
+                    if inner.method == "into" && inner.args.is_empty() {
+                        let recv = &mc.receiver;
+                        let err = &inner.receiver;
+                        *e = parse_quote!(match #recv { Some(__v) => Ok(__v), None => Err((#err).into_verr()) });
+                        self.stats.bump("N9.ok_or_into");
+                        return;
+                    }
+                }
+            }
+            // OPT.map(|x| BODY)  ==>  match OPT { Some(x) => Some(BODY), None => None }   (definition of Option::map)
+            if mc.method == "map" && mc.args.len() == 1 && self.opt_map {
+                if let Expr::Closure(cl) = &mc.args[0] {
+                    if cl.inputs.len() == 1 {
+                        if let syn::Pat::Ident(pi) = &cl.inputs[0] {
+                            let recv = &mc.receiver;
+                            let x = &pi.ident;
+                            let body = &cl.body;
+                            *e = parse_quote!(match #recv { Some(#x) => Some(#body), None => None });
+                            self.stats.bump("N9.option_map");
+                            return;
+                        }
+                    }
+                }
+            }
+            // X.parse::<usize>()  ==>  v_parse_usize(&X)
+            if mc.method == "parse" && mc.args.is_empty() && mc.turbofish.is_some() {
+                let tf = mc.turbofish.as_ref().unwrap().to_token_stream().to_string().replace(' ', "");
+                if tf == "::<usize>" {
+                    let recv = &mc.receiver;
+                    *e = parse_quote!(v_parse_usize(&#recv));
+                    self.stats.bump("N9.parse_usize");
+                    return;
+                }
+            }
+            // futures::stream::repeat(()).throttle(Duration::from_secs(S)).take(N)  ==>  v_retry(S, N)
+            if mc.method == "take" && mc.args.len() == 1 {
+                if let Expr::MethodCall(th) = &*mc.receiver {
+                    if th.method == "throttle" && th.args.len() == 1 {
+                        if let Expr::Call(rep) = &*th.receiver {
+                            let f = rep.func.to_token_stream().to_string().replace(' ', "");
+                            if f.ends_with("stream::repeat") {
+                                if let Expr::Call(dur) = &th.args[0] {
+                                    let df = dur.func.to_token_stream().to_string().replace(' ', "");
+                                    if df.ends_with("Duration::from_secs") && dur.args.len() == 1 {
+                                        let s_ = &dur.args[0];
+                                        let n = &mc.args[0];
+                                        *e = parse_quote!(v_retry(#s_, #n));
+                                        self.stats.bump("N9.retry_budget");
+                                        return;
+                                    }
+                                }
+                            }
+                        }
+                    }
+                }
+            }
+            // S[a..].to_string()  ==>  v_str_from(&S, a)
+            if mc.method == "to_string" && mc.args.is_empty() {
+                if let Expr::Index(ix) = &*mc.receiver {
+                    if let Expr::Range(rg) = &*ix.index {
+                        if let (Some(lo), None) = (&rg.start, &rg.end) {
+                            let base = &ix.expr;
+                            *e = parse_quote!(v_str_from(&#base, #lo));
+                            self.stats.bump("N9.str_suffix");
+                            return;
+                        }
+                    }
+                }
+            }
+        }
+        // Duration::from_secs(X) ==> v_duration_from_secs(X)
+        if let Expr::Call(c) = e {
+            let f = c.func.to_token_stream().to_string().replace(' ', "");
+            if (f == "HashMap::new" || f.ends_with("::HashMap::new")) && c.args.is_empty() {
+                *e = parse_quote!(VMap::new());
+                self.stats.bump("N11.hashmap_new");
+                return;
+            }
+            if f.ends_with("Duration::from_secs") && c.args.len() == 1 {
+                let a = &c.args[0];
+                *e = parse_quote!(v_duration_from_secs(#a));
+                self.stats.bump("N9.duration_from_secs");
+                return;
+            }
+        }
+    }
+}
+
 impl<'a> VisitMut for Norm<'a> {
     fn visit_block_mut(&mut self, b: &mut syn::Block) {
         // N4 + N2 operate on statement lists
@@ -353,6 +533,15 @@ impl<'a> VisitMut for Norm<'a> {
             // stray `;` left by macro expansion
             if let Stmt::Expr(Expr::Verbatim(ts), _) = &s {
                 if ts.is_empty() {
+                    continue;
+                }
+            }
+            // bail!(..) as a statement: make it an expression statement so that N9 applies
+            if let Stmt::Macro(sm) = &s {
+                if path_last(&sm.mac.path) == "bail" {
+                    let mac = &sm.mac;
+                    let ex: Expr = Expr::Macro(syn::ExprMacro { attrs: vec![], mac: mac.clone() });
+                    new.push(Stmt::Expr(ex, Some(Default::default())));
                     continue;
                 }
             }
@@ -466,6 +655,7 @@ impl<'a> VisitMut for Norm<'a> {
             }
         }
         self.n6(e);
+        self.n9(e);
     }
 
     fn visit_expr_closure_mut(&mut self, c: &mut syn::ExprClosure) {
@@ -515,7 +705,7 @@ impl<'a> VisitMut for Norm<'a> {
 /// Returns the number of loops found (pre-order numbering).
 pub fn normalise(block: &mut syn::Block, opts: &BTreeMap<String, String>, stats: &mut Stats, desc: &str) -> usize {
     let deref_idents = opts.get("n3").map(|s| s.split(',').map(|x| x.to_string()).collect()).unwrap_or_default();
-    let mut n = Norm { stats, desc, loops: 0, tmp: 0, closure_args: 0, deref_idents, keep_async: false, yieldctx: opts.get("yieldctx").cloned() };
+    let mut n = Norm { stats, desc, loops: 0, tmp: 0, closure_args: 0, deref_idents, keep_async: false, yieldctx: opts.get("yieldctx").cloned(), opt_map: opts.contains_key("optmap") };
     n.visit_block_mut(block);
     n.loops
 }
